@@ -26,6 +26,10 @@ claim("C18","exploration","Go race detector + baseline-equality and exactly-once
  "The real codec, request APIs, generated plugin/api (de)serialisers, the frame client and the plugin fan-out run under the race detector in rounds of 2..64 goroutines with GOMAXPROCS in {1,2,16}; every operation's result is compared with its run-alone baseline, every echo reply must be the caller's own unique payload, every frame must be seen exactly once, merged plugin output must be the union and every planted conflict must be reported. Evidence records overlapping operation pairs and pool recycling actually observed.",
  "interleavings are those the Go scheduler produced; generated types limited to plugin/api until the generated-program lab covers C18", "DESIGN.md §5 C18")
 
+claim("C11","exploration","runtime monitor: model-rendered documents with position bookkeeping compared node-by-node with the parser's tree; totality/ast.Walk monitors over mutated byte strings",
+ "Documents are drawn from the full grammar in my own IDL model and rendered with randomised layout while recording each node's first-token line/column; the real parser's tree (structure, names, literal values, docstrings, positions via ast.Pos/Info.Pos) must equal the model, ast.Walk must visit exactly the tree in order with true parents, and random/token-mutated byte strings must yield exactly one of (program, non-empty positioned error list) without panicking. Two position defects that cannot be repaired without regenerating the scanner/parser are open findings, matched by signature only.",
+ "the printer's bookkeeping defines 'true position'; docstring text is asserted only for unambiguous shapes", "DESIGN.md §5 C11")
+
 NOT_IMPL = "check not implemented yet in this round (statement about the machinery, not the technique)"
 
 def main():
